@@ -65,10 +65,7 @@ def run(tier: str) -> int:
                                       "verdict": "each refuted by its invariant (postcondition ControlsRefuted)"})
         designs = [("design: all interleavings, the 1-item scenarios", True,
                     tp.submit(ac.design_run, 2, "FamOneQuick" if q else "FamOne", ("own",), ("F",), 3, True))]
-        if tier == "quick":
-            designs.append(("design: all interleavings, 2 items on the thread-safe scheduler, foreign-thread disposes", False,
-                            tp.submit(ac.design_run, 2, "FamTwoQuick", ("own",), ("F",), 2, False)))
-        else:
+        if tier != "quick":      # (quick: the 2-item family FamTwoQuick - 6 k states - was dropped for wall-clock reasons)
             designs.append(("design: all interleavings, 2 items, both schedulers", False,
                             tp.submit(ac.design_run, 2, "FamTwo", ("own",), ("F",), 4, False, 3000)))
             designs.append(("design: all interleavings, 3 threads (second foreign thread G), 2 items", False,
@@ -101,7 +98,7 @@ def run(tier: str) -> int:
         # longest first: the scenarios with a foreign thread at work while the loop runs
         jobs.sort(key=lambda j: -sum(1 for it in j[0]["scn"] if "F" in (it["sw"], it["dw"])) * j[2])
         t0 = time.time()
-        tot = ac.conc_check(ck, jobs, pool, "real executions", mech_sample=16 if q else 600)
+        tot = ac.conc_check(ck, jobs, pool, "real executions", mech_sample=12 if q else 600)
         ck.note("exploration_and_validation_wall_s", round(time.time() - t0, 1))
         for k, v in tot.items():
             ck.note("conc_" + k, v)
